@@ -409,7 +409,7 @@ def check(ctx, as_premise=False):
     ctx.count("packet_types", n)
 
 
-def wire_premise(ctx, rule, consequence):
+def wire_premise(ctx, rule, consequence, only=None):
     """The encoders' side of a property about the byte stream: what is written is only well-formed if every encoder produces the
     prescribed packet (first byte, remaining length that counts exactly what follows, fields in place, primitives exact).  Runs
     the C02 rules and reports their failures under `rule` of the calling property."""
@@ -422,6 +422,8 @@ def wire_premise(ctx, rule, consequence):
         key = (f.rule, f.construct)
         if key in seen or key in known:
             continue
+        if only is not None and not only(f):
+            continue        # the calling property builds on a part of the encoders' side only
         seen.add(key)
         ctx.ob(rule, "encoding premise %s %s" % (f.rule, f.construct), False, file=f.file, line=f.line, function=f.function,
                construct="encoding/%s/%s" % (f.rule, f.construct), msg="%s (C02 %s) - %s" % (f.message, f.rule, consequence))
